@@ -5,6 +5,7 @@ mod corpus;
 mod detrun;
 mod emitrun;
 mod eoracle;
+mod execgen;
 mod hirobs;
 mod horacle;
 mod fsrun;
